@@ -1220,6 +1220,35 @@ class Symbolic(
           f'(path=\'{path.parent}\')')
     return parent_node._set_item_without_permission_check(path.key, value)  # pylint: disable=protected-access
 
+  def _ensure_rebind_targets_writable(
+      self, path_value_pairs: Dict[utils.KeyPath, Any]
+  ) -> None:
+    """Refuses a batched rebind as a whole if any target node is sealed.
+
+    The per-target check in `_set_item_of_current_tree` raises only when the
+    sealed target is reached, by which time earlier pairs of the same batch
+    have already been applied. Checking all targets first keeps the tree intact
+    when the rebind is refused.
+
+    Args:
+      path_value_pairs: A dictionary of key path to new field value.
+
+    Raises:
+      WritePermissionError: If the parent node of a path is sealed.
+    """
+    for path in path_value_pairs:
+      if not path:
+        continue
+      try:
+        parent_node = path.parent.query(self)
+      except KeyError:
+        continue
+      if isinstance(parent_node, Symbolic) and treats_as_sealed(parent_node):
+        raise WritePermissionError(
+            f'Cannot rebind key {path.key!r} of '
+            f'sealed {parent_node.__class__.__name__}: {parent_node!r}. '
+            f'(path=\'{path.parent}\')')
+
   def _notify_field_updates(
       self,
       field_updates: List[FieldUpdate],
